@@ -16,7 +16,11 @@ fn read_hex_bytes(contents: &str) -> Vec<u8> {
 
     let mut out = Vec::with_capacity(hex.len() / 2);
     for i in (0..hex.len()).step_by(2) {
-        let byte = u8::from_str_radix(&hex[i..i + 2], 16).expect("valid hex");
+        let pair = &hex[i..i + 2];
+        // `from_str_radix` alone would also take a sign ("+a" parses as 0x0a); hex text is
+        // digits only, exactly what `validate_hex_file` accepts.
+        assert!(pair.bytes().all(|b| b.is_ascii_hexdigit()), "valid hex");
+        let byte = u8::from_str_radix(pair, 16).expect("valid hex");
         out.push(byte);
     }
     out
